@@ -19,6 +19,7 @@ type fragReader struct {
 	frags    [][]byte
 	fin      error
 	consumed int
+	coalesce bool // the last bytes of the stream are returned together with fin (io.Reader allows it; crypto/tls does it)
 }
 
 var errTransport = errors.New("scripted transport error")
@@ -36,6 +37,10 @@ func (f *fragReader) Read(p []byte) (int, error) {
 	n := copy(p, f.frags[0])
 	f.frags[0] = f.frags[0][n:]
 	f.consumed += n
+	if f.coalesce && len(f.frags) == 1 && len(f.frags[0]) == 0 {
+		f.frags = nil
+		return n, f.fin
+	}
 	return n, nil
 }
 
@@ -98,6 +103,9 @@ func execStream(toks []string) string {
 		fin = errTransport
 	}
 	src := &fragReader{frags: cutFrags(sizes, append([]byte(nil), bs...)), fin: fin}
+	if co, _ := kvGet(toks, "co"); co == "1" {
+		src.coalesce = true
+	}
 	var rd io.Reader = src
 	if via == "bufio" {
 		rd = bufio.NewReader(src)
@@ -246,7 +254,12 @@ func genStream(r *RNG, n int, op string, emit func(string)) {
 				o += s
 			}
 		}
-		emit(streamLine(fin, via, sizes, stream))
+		line := streamLine(fin, via, sizes, stream)
+		if r.Chance(25) {
+			// `co=1` goes before the hex (the last token stays the stream)
+			line = strings.Replace(line, " frags=", " co=1 frags=", 1)
+		}
+		emit(line)
 	}
 }
 
